@@ -114,6 +114,35 @@ pub fn check_step_at(name: &str, cj: &Value, cs: &[C5], t: usize, t_abs: usize, 
 				}
 			}
 		}
+		"AverageDirectionalIndex" => {
+			// ADX averages |+DI - -DI| / (+DI + -DI), a number in [0, 1] whatever the directional values are: with a
+			// second average of fixed non-negative weights (or a median) it stays there.
+			// +DI and -DI are ratios of ONE average applied to directional movement and to true range; with
+			// period1 == 1 the movement of a bar never exceeds its true range, so for such an average both stay in
+			// [0, 1] - wherever the ratio is defined, i.e. the true ranges the average still remembers are not all
+			// zero (decided on the inputs). The running sums carry a residue of the largest range of the history,
+			// hence the conditioning term.
+			let kind = |m: &Value| m.as_object().and_then(|o| o.keys().next().cloned()).unwrap_or_default();
+			let len = |m: &Value| m.as_object().and_then(|o| o.values().next().and_then(Value::as_u64)).unwrap_or(1) as usize;
+			let fixed = |k: &str| matches!(k, "sma" | "wma" | "rma" | "ema" | "dma" | "tma" | "wsma" | "smm" | "swma" | "trima");
+			if fixed(&kind(&cj["method2"])) {
+				ensure!(in_range(vals[0], 0.0, 1.0, d1), "C12:AverageDirectionalIndex:range-adx", "{}", desc("ADX", vals[0]));
+			}
+			if cj["period1"].as_u64() == Some(1) && fixed(&kind(&cj["method1"])) {
+				let n = len(&cj["method1"]).max(1);
+				let w: Vec<&C5> = window_of(cs, t_rel, n + 1).collect(); // newest first
+				let tr_sum: f64 = (0..n).map(|i| w[i].h.max(w[i + 1].c) - w[i].l.min(w[i + 1].c)).sum();
+				let d = allow(n, t_abs, 1.0, 4.0) * (1.0 + n as f64 * m / tr_sum);
+				if tr_sum > 0.0 && d <= 0.25 {
+					st.ratio(((vals[1].max(vals[2]) - 1.0) / d).max(0.0));
+					ensure!(in_range(vals[1], 0.0, 1.0, d), "C12:AverageDirectionalIndex:range-plus", "{} (allowance {d:e})", desc("+DI", vals[1]));
+					ensure!(in_range(vals[2], 0.0, 1.0, d), "C12:AverageDirectionalIndex:range-minus", "{} (allowance {d:e})", desc("-DI", vals[2]));
+					st.count("adx_di_range_steps", 1);
+				} else {
+					st.count("adx_di_range_exempt_flat_or_ill_conditioned", 1);
+				}
+			}
+		}
 		"ChandeMomentumOscillator" => ensure!(in_range(vals[0], -1.0, 1.0, d1), "C12:ChandeMomentumOscillator:range", "{}", desc("CMO", vals[0])),
 		"ChaikinMoneyFlow" => {
 			if !exempt_nonfinite {
@@ -290,7 +319,7 @@ pub fn def(tier: Tier) -> PropertyDef {
 	PropertyDef {
 		id: "C12",
 		level: "exploration",
-		rule: "(Also long one-sided trend streams with a zig-zag, <= 2500 bars / thorough 12000, sub-checks trend_*.) All 37 indicators with generated valid configurations (non-overshooting MA kinds where the range claim is conditional) on regime streams built for the configuration's longest window: volatile -> EXACTLY flat candles for 3n+2 steps -> volatile -> flat 2n+1 -> volatile, with zero-volume stretches and high == low candles (3 of 4 cases), plus the general candle streams. Oracle: pure predicates on the outputs at every step - documented intervals (Aroon, RSI, MFI, Stochastic in [0,1]; CMO, CMF, TSI-based in [-1,1]; TrendStrengthIndex in [-1,1] up to the conditioning of its variance, K*eps*(n+t)*(M/sigma + M^2/sigma^2), steps where that exceeds 0.25 counted as exempt; sub-check ramp_TrendStrengthIndex: exactly linear stretches longer than the window on the 1/4 lattice), band orderings, channel containment, SAR on the side opposite to its trend (exact), dispersion measures >= 0, clv in [-1,1], and finiteness of every value of every indicator wherever the formula is defined (exempt: CMF windows with exactly zero total volume, TrendStrengthIndex windows that are exactly constant). Allowance K*eps*(n+t)*width, no conditioning exemption. Non-trivial = a case containing an exactly flat stretch at least as long as the longest window, followed by movement.",
+		rule: "(Also long one-sided trend streams with a zig-zag, <= 2500 bars / thorough 12000, sub-checks trend_*.) All 37 indicators with generated valid configurations (non-overshooting MA kinds where the range claim is conditional) on regime streams built for the configuration's longest window: volatile -> EXACTLY flat candles for 3n+2 steps -> volatile -> flat 2n+1 -> volatile, with zero-volume stretches and high == low candles (3 of 4 cases), plus the general candle streams. Oracle: pure predicates on the outputs at every step - documented intervals (Aroon, RSI, MFI, Stochastic in [0,1]; CMO, CMF, TSI-based in [-1,1]; TrendStrengthIndex in [-1,1] up to the conditioning of its variance, K*eps*(n+t)*(M/sigma + M^2/sigma^2), steps where that exceeds 0.25 counted as exempt; sub-check ramp_TrendStrengthIndex: exactly linear stretches longer than the window on the 1/4 lattice; AverageDirectionalIndex: ADX in [0,1] when the second average has fixed non-negative weights or is a median, +DI/-DI in [0,1] when moreover period1 == 1 and the true ranges the first average remembers are not all zero, allowance K*eps*(n+t)*(1 + n*M/sum of those ranges), exempt beyond 0.25), band orderings, channel containment, SAR on the side opposite to its trend (exact), dispersion measures >= 0, clv in [-1,1], and finiteness of every value of every indicator wherever the formula is defined (exempt: CMF windows with exactly zero total volume, TrendStrengthIndex windows that are exactly constant). Allowance K*eps*(n+t)*width, no conditioning exemption. Non-trivial = a case containing an exactly flat stretch at least as long as the longest window, followed by movement.",
 		assumptions: vec!["Keltner/Envelopes band order is claimed for non-overshooting averages of positive prices".into()],
 		exhaustive: false,
 		checks,
